@@ -17,7 +17,7 @@ for out in sorted(glob.glob(SEED_ROOT + "/C*.out")):
             continue
         c = json.load(open(cj))
         name = pid + (x if SEED_ROOT == "/tmp/seed" else {"A": "C", "B": "D"}[x])
-        with_fail = c.get("demo_with_change") and all(d["rc"] != 0 for d in c["demo_with_change"][:1]) and any(d["rc"] != 0 for d in c["demo_with_change"])
+        with_fail = c.get("demo_with_change") and any(d["rc"] != 0 for d in c["demo_with_change"])
         without_ok = c.get("demo_without_change") and all(d["rc"] == 0 for d in c["demo_without_change"])
         pk = c.get("suite_pkgs") or []
         root_ok = any(p[0] == "ok" and p[1] == "github.com/couchbase/nitro" for p in pk)
